@@ -38,7 +38,7 @@ def units(tier, seed):
     us += [{'name': f'closure laws {n}x{m}', 'fn': 'unit_laws', 'args': {'n': n, 'm': m}} for n, m in laws]
     us += [{'name': f'getitem {n}x{m}', 'fn': 'unit_getitem', 'args': {'n': n, 'm': m}} for n, m in gi]
     us += _mk.table_units(t)
-    us += _mk.inductive_units(tier) + _mk.skeleton_units(tier, seed)
+    us += _mk.inductive_units(tier) + _mk.skeleton_kernel_units(tier, seed) + _mk.skeleton_units(tier, seed)
     return _mk.order(us)
 
 
